@@ -38,6 +38,7 @@ package slug
 //@ func (*Packer).packWalkFn$1 -> (err)
 //@   sweep
 //@   replay packSelfLoop:
+//@   decreases C19.terminates: maxExternalLinkHops - len(dereferenced)
 //@   at-call os.Open C19.open-regular: modeRegular(fileMode(info)) || (resolved != nil && modeRegular(fileMode(resolved.info)))
 //@   requires pre.captured: p != nil && meta != nil && tarW != nil
 
